@@ -167,6 +167,13 @@ def handle (mode : String) (line : String) : String :=
       | _ => "violates unparsable-observation"
     | "tablerace" :: _ =>
       if obs.startsWith "race ok" then "ok" else s!"violates one logical connection per peer: {obs}"
+    | "serve" :: "udpgiveup" :: _ =>
+      match words obs with
+      | ["giveup", "b", "got", g, "stopped", st] =>
+        if g != "3/3" then s!"violates after the server gave up a request of its own towards a silent peer, another peer got only {g} of its responses"
+        else if st != "1" then "violates Serve did not return after Stop() once a request towards a silent peer had been given up"
+        else "ok"
+      | _ => "violates unparsable-observation"
     | "serve" :: "udporder" :: _ =>
       match words obs with
       | "order" :: "handled" :: frac :: "ascending" :: [] =>
